@@ -71,13 +71,17 @@ def cases(rng, tier, shard, nshards):
             cls = CLASSES[(i // 4 + shard) % 4]
             dim = int(rng.integers(1, 5))
             method = str(rng.choice(MULTI_METHODS[cls]))
+            stat = [bool(v) for v in rng.random(size=dim) < 0.15]
+            spec = D.draw_step_spec(rng, method, 2 if cls in ('Hessdiag', 'Hessian') else 1)
+            if any(stat) and rng.random() < 0.5:
+                spec = dict(kind='scalar', value=float(10.0 ** rng.uniform(-5, -2.5)))
             yield dict(kind='multi', cls=cls, dim=dim, method=method,
                        order=int(rng.choice([2, 4])) if cls != 'Hessian' else None,
                        g=[int(v) for v in rng.integers(0, len(G_PROGS), size=dim)],
                        x=[float(np.round(v, 4)) for v in rng.uniform(-2, 2, size=dim)],
-                       stationary=[bool(v) for v in rng.random(size=dim) < 0.15],
+                       stationary=stat,
                        m=int(rng.integers(1, 4)), beta=float(np.round(rng.uniform(-2, 2), 3)),
-                       seed=int(rng.integers(0, 2 ** 31)), step=D.draw_step_spec(rng, method, 2 if cls in ('Hessdiag', 'Hessian') else 1))
+                       seed=int(rng.integers(0, 2 ** 31)), step=spec)
             continue
         if k < ncells:
             method, n, order = D.draw_config(rng, k)
